@@ -405,8 +405,11 @@ class KeyedSet(Generic[ItemType, KeyType], MutableSet, KeyedBase):  # pylint: di
         return self._dict.get(key, default)
 
     def __getitem__(self, key):
-        if key in self._dict:
-            return self._dict[key]
+        try:
+            if key in self._dict:
+                return self._dict[key]
+        except TypeError:
+            pass  # Unhashable, so not a key; treat it as an item below.
         item_key = self.key(key)
         if item_key in self._dict:
             return self._dict[item_key]
